@@ -3,6 +3,7 @@
 package consensus
 
 import (
+	"encoding/binary"
 	"encoding/json"
 	"fmt"
 	"os"
@@ -393,6 +394,7 @@ func c01Configs(thorough bool) []c01Config {
 	}
 	// directed base schedules B4/B5 with crash insertion before every step (own worker)
 	add("BASE-B4-B5-crash-insertion", 3, 3, 1, "base", 0, false, 0)
+	cs[len(cs)-1].BudgetS = 200 // B4..B8 with crash insertion: about 1100 scenario runs
 	if !thorough {
 		// deviation-bounded DFS: every execution with <= D deviations from the synchronous scheduler
 		for _, byz := range []int{0, 1, 2, 3} {
@@ -946,6 +948,33 @@ func TestVerifC01Scenario(t *testing.T) {
 		}
 	}
 	for _, crash := range []bool{false, true} {
+		sc, _ := scenarioStaleHeightRecords(crash, 0, 0)
+		fins, distinct := sc.result()
+		fmt.Printf("=== stale-height-records scenario withCrash=%v: finalized=%v distinct=%d steps=%d\n", crash, fins, distinct, sc.stepNo)
+		if os.Getenv("VERIF_DEBUG") != "" {
+			for _, l := range sc.log {
+				fmt.Println("  ", l)
+			}
+		}
+	}
+	for _, crash := range []bool{false, true} {
+		sc, _ := scenarioHeight2Amnesia(crash, 0, 0)
+		fins, distinct := sc.result()
+		fmt.Printf("=== height-2 amnesia scenario withCrash=%v: finalized=%v distinct=%d steps=%d\n", crash, fins, distinct, sc.stepNo)
+		if os.Getenv("VERIF_DEBUG") != "" {
+			if w := sc.nodes[0].mwal; w != nil {
+				for _, rec := range w.synced["lock"] {
+					if m, err := UnmarshalMessage(binary.BigEndian.Uint16(rec[:2]), rec[2:]); err == nil {
+						fmt.Printf("   V0 lock WAL: %T %v\n", m, m)
+					}
+				}
+			}
+			for _, l := range sc.log {
+				fmt.Println("  ", l)
+			}
+		}
+	}
+	for _, crash := range []bool{false, true} {
 		sc, _ := scenarioRelockAmnesia(crash, 0, 0)
 		fins, distinct := sc.result()
 		fmt.Printf("=== relock scenario withCrash=%v: finalized=%v distinct=%d steps=%d\n", crash, fins, distinct, sc.stepNo)
@@ -955,6 +984,319 @@ func TestVerifC01Scenario(t *testing.T) {
 			}
 		}
 	}
+}
+
+// byzMenuAt interns Byzantine validator b's votes (both types, rounds 0..R) at the given
+// height for nil and for each named block, and its proposals + block parts for the blocks
+// listed in propose (round -> block name, pol -1). Blocks must be named before.
+func (x *explorer) byzMenuAt(b int, height int64, R int32, vals map[string]*fBlock, propose map[int32]string) {
+	w := x.env.wallets[b]
+	nilID := codec.MustMarshalToBytes(1)
+	ts := x.env.blockTS(b, int(height)) + 500
+	var names []string
+	for name := range vals {
+		names = append(names, name)
+	}
+	sort.Strings(names)
+	for r := int32(0); r <= R; r++ {
+		if name, ok := propose[r]; ok {
+			ps := vals[name].partSet()
+			pm := NewProposalMessage()
+			pm.Height, pm.Round, pm.BlockPartSetID, pm.POLRound = height, r, ps.ID(), -1
+			if err := pm.Sign(w); err != nil {
+				panic(err)
+			}
+			x.mt.intern(uint16(ProtoProposal), msgCodec.MustMarshalToBytes(pm))
+			bp := newBlockPartMessage()
+			bp.Height, bp.Index, bp.BlockPart, bp.Nonce = height, 0, ps.GetPart(0).Bytes(), r
+			x.mt.intern(uint16(ProtoBlockPart), msgCodec.MustMarshalToBytes(bp))
+		}
+		for _, vt := range []VoteType{VoteTypePrevote, VoteTypePrecommit} {
+			vm := NewVoteMessage(w, vt, height, r, nilID, nil, ts, nil, nil, 0)
+			x.mt.intern(uint16(ProtoVote), msgCodec.MustMarshalToBytes(vm))
+			for _, name := range names {
+				v := vals[name]
+				vm := NewVoteMessage(w, vt, height, r, v.ID(), v.partSet().ID(), ts, nil, nil, 0)
+				x.mt.intern(uint16(ProtoVote), msgCodec.MustMarshalToBytes(vm))
+			}
+		}
+	}
+}
+
+// ---------------------------------------------------------------- base schedule B7: lock, crash, amnesia at HEIGHT 2
+//
+// n = 4, V3 Byzantine (silent at height 1). Height 1 is decided synchronously in round 0
+// (every correct validator locks B1 and writes its lock record). Height 2: proposers of rounds
+// 0, 1 are V2, V3. Round 0: V2 proposes C; V0 and V2 see the polka, lock C and precommit C; V2
+// is also shown V3's precommit and FINALIZES C; V1 sees no polka and precommits nil; V0 and V1
+// time out into round 1. V0 crashes and restarts - its write-ahead logs hold the records of both
+// heights. Round 1: V3 proposes its own block X2 and prevotes/precommits it. A validator that
+// still holds its lock prevotes C and X2 gets no polka; one that lost it prevotes X2, and V0 and V1
+// finalize X2 at a height where V2 finalized C.
+func scenarioHeight2Amnesia(withCrash bool, crashAt, crashNode int) (*scenario, *explorer) {
+	env := newCSEnv(4)
+	correct := []int{0, 1, 2}
+	x := newExplorer(env, correct, 3)
+	x.maxHeight = 2
+	for _, p := range correct {
+		x.mt.nameBlock(x.honestBlock(p).ID(), fmt.Sprintf("B%d", p))
+		x.mt.namePS(x.honestBlock(p).partSet().ID().Hash, fmt.Sprintf("B%d", p))
+	}
+	b1 := x.honestBlock(1)
+	c := newFBlock(fBlockHeader{Height: 2, PrevID: b1.ID(), Proposer: env.wallets[2].Address().Bytes(),
+		Timestamp: env.blockTS(2, 1), Tag: "n2.p1"}, env.vl)
+	x2 := newFBlock(fBlockHeader{Height: 2, PrevID: b1.ID(), Proposer: env.wallets[3].Address().Bytes(),
+		Timestamp: env.blockTS(3, 2), Tag: "byzX2"}, env.vl)
+	for name, blk := range map[string]*fBlock{"C": c, "X2": x2} {
+		x.mt.nameBlock(blk.ID(), name)
+		x.mt.namePS(blk.partSet().ID().Hash, name)
+		x.mt.registerBlock(name, blk)
+	}
+	x.byzMenuAt(3, 2, 1, map[string]*fBlock{"C": c, "X2": x2}, map[int32]string{1: "X2"})
+	sc := newScenario(x, 3, crashAt, crashNode)
+	pv := func(to, signer int, h int64, r int32, blk string) {
+		sc.h = h
+		sc.send(to, msgPred{"prevote", signer, r, blk})
+	}
+	pc := func(to, signer int, h int64, r int32, blk string) {
+		sc.h = h
+		sc.send(to, msgPred{"precommit", signer, r, blk})
+	}
+	// --- height 1, round 0: V1 proposes B1, everybody sees everything
+	sc.pump(1)
+	for _, to := range []int{0, 2} {
+		sc.send(to, msgPred{"proposal", 1, 0, "B1"})
+		sc.send(to, msgPred{"part", -2, 0, "B1"})
+	}
+	sc.send(1, msgPred{"part", -2, 0, "B1"})
+	for _, to := range []int{0, 1, 2} {
+		for _, s := range []int{0, 1, 2} {
+			pv(to, s, 1, 0, "B1")
+		}
+	}
+	for _, to := range []int{0, 1, 2} {
+		for _, s := range []int{0, 1, 2} {
+			pc(to, s, 1, 0, "B1")
+		}
+	}
+	// --- height 2: the new-height wait of everybody ends; V2 proposes C
+	sc.h = 2
+	for _, i := range []int{0, 1, 2} {
+		sc.timeout(i)
+	}
+	sc.pump(2)
+	for _, to := range []int{0, 1} {
+		sc.send(to, msgPred{"proposal", 2, 0, "C"})
+		sc.send(to, msgPred{"part", -2, 0, "C"})
+	}
+	sc.send(2, msgPred{"part", -2, 0, "C"})
+	// V0 and V2 are shown the polka for C, V1 is shown C, C, nil
+	pv(0, 2, 2, 0, "C")
+	pv(0, 3, 2, 0, "C")
+	pv(2, 0, 2, 0, "C")
+	pv(2, 3, 2, 0, "C")
+	pv(1, 2, 2, 0, "C")
+	pv(1, 3, 2, 0, "nil")
+	sc.timeout(1) // prevote wait -> precommit nil
+	// V2 collects precommits C from V0 and V3 -> finalizes C
+	pc(2, 0, 2, 0, "C")
+	pc(2, 3, 2, 0, "C")
+	// V0 and V1 see own, nil, nil / C, nil, nil -> precommit wait -> round 1
+	pc(0, 1, 2, 0, "nil")
+	pc(0, 3, 2, 0, "nil")
+	pc(1, 0, 2, 0, "C")
+	pc(1, 3, 2, 0, "nil")
+	sc.timeout(0)
+	sc.timeout(1)
+	if withCrash {
+		sc.crash(0)
+	}
+	// a restarted V0 is back in round 0 (its own precommit is the last thing it remembers)
+	for k := 0; k < 3 && !sc.nodes[0].dead() && sc.nodes[0].cs.height == 2 && sc.nodes[0].cs.round < 1; k++ {
+		pc(0, 1, 2, 0, "nil")
+		pc(0, 3, 2, 0, "nil")
+		sc.timeout(0)
+	}
+	// --- round 1: V3 proposes X2 and votes for it
+	for _, to := range []int{0, 1} {
+		sc.send(to, msgPred{"proposal", 3, 1, "X2"})
+		sc.send(to, msgPred{"part", -2, 0, "X2"})
+	}
+	sc.timeout(0) // a locked V0 waits for the propose timeout only if the proposal did not complete; harmless otherwise
+	for _, to := range []int{0, 1} {
+		for _, s := range []int{0, 1} {
+			pv(to, s, 2, 1, "")
+		}
+		pv(to, 3, 2, 1, "X2")
+	}
+	for _, to := range []int{0, 1} {
+		for _, s := range []int{0, 1} {
+			pc(to, s, 2, 1, "")
+		}
+		pc(to, 3, 2, 1, "X2")
+	}
+	return sc, x
+}
+
+// ---------------------------------------------------------------- base schedule B8: stale lock records of an older height
+//
+// Like B7, but height 1 is decided in ROUND 1 (round 0 fails: nobody but the proposer sees the
+// proposal), so every correct validator's lock WAL holds a lock record of (height 1, round 1).
+// Height 2: V2 proposes C in round 0; V0 and V2 lock C, V2 finalizes C with the Byzantine
+// precommit; V0 and V1 move on; V0 crashes and restarts. Round 1 (Byzantine proposer, silent)
+// ends with nil precommits. Round 2: V0 is the proposer - a validator that still holds its lock
+// re-proposes C; one that lost it (e.g. because records of height 1 were taken for a polka of
+// height 2, round 1) proposes a new block D, the Byzantine validator votes for D, and V0 and V1
+// finalize D at a height where V2 finalized C.
+func scenarioStaleHeightRecords(withCrash bool, crashAt, crashNode int) (*scenario, *explorer) {
+	env := newCSEnv(4)
+	correct := []int{0, 1, 2}
+	x := newExplorer(env, correct, 3)
+	x.maxHeight = 2
+	for _, p := range correct {
+		x.mt.nameBlock(x.honestBlock(p).ID(), fmt.Sprintf("B%d", p))
+		x.mt.namePS(x.honestBlock(p).partSet().ID().Hash, fmt.Sprintf("B%d", p))
+	}
+	b2 := x.honestBlock(2)
+	c := newFBlock(fBlockHeader{Height: 2, PrevID: b2.ID(), Proposer: env.wallets[2].Address().Bytes(),
+		Timestamp: env.blockTS(2, 2), Tag: "n2.p2"}, env.vl)
+	d := newFBlock(fBlockHeader{Height: 2, PrevID: b2.ID(), Proposer: env.wallets[0].Address().Bytes(),
+		Timestamp: env.blockTS(0, 1), Tag: "n0.p1"}, env.vl)
+	for name, blk := range map[string]*fBlock{"C": c, "D": d} {
+		x.mt.nameBlock(blk.ID(), name)
+		x.mt.namePS(blk.partSet().ID().Hash, name)
+		x.mt.registerBlock(name, blk)
+	}
+	x.byzMenuAt(3, 2, 2, map[string]*fBlock{"C": c, "D": d}, nil)
+	sc := newScenario(x, 3, crashAt, crashNode)
+	pv := func(to, signer int, h int64, r int32, blk string) {
+		sc.h = h
+		sc.send(to, msgPred{"prevote", signer, r, blk})
+	}
+	pc := func(to, signer int, h int64, r int32, blk string) {
+		sc.h = h
+		sc.send(to, msgPred{"precommit", signer, r, blk})
+	}
+	// --- height 1, round 0: V1 proposes B1 but the proposal reaches nobody
+	sc.pump(1)
+	sc.send(1, msgPred{"part", -2, 0, "B1"})
+	sc.timeout(0) // propose timeout -> prevote nil
+	sc.timeout(2)
+	for _, to := range []int{0, 1, 2} {
+		for _, s := range []int{0, 1, 2} {
+			pv(to, s, 1, 0, "")
+		}
+	}
+	for _, i := range []int{0, 1, 2} {
+		if sc.nodes[i].cs.step == stepPrevoteWait {
+			sc.timeout(i)
+		}
+	}
+	for _, to := range []int{0, 1, 2} {
+		for _, s := range []int{0, 1, 2} {
+			pc(to, s, 1, 0, "")
+		}
+	}
+	for _, i := range []int{0, 1, 2} {
+		if sc.nodes[i].cs.round == 0 {
+			sc.timeout(i) // precommit wait -> round 1
+		}
+	}
+	// --- height 1, round 1: V2 proposes B2, everybody sees everything, locks B2@1 and commits it
+	sc.pump(2)
+	for _, to := range []int{0, 1} {
+		sc.send(to, msgPred{"proposal", 2, 1, "B2"})
+		sc.send(to, msgPred{"part", -2, 0, "B2"})
+	}
+	sc.send(2, msgPred{"part", -2, 0, "B2"})
+	for _, to := range []int{0, 1, 2} {
+		for _, s := range []int{0, 1, 2} {
+			pv(to, s, 1, 1, "B2")
+		}
+	}
+	for _, to := range []int{0, 1, 2} {
+		for _, s := range []int{0, 1, 2} {
+			pc(to, s, 1, 1, "B2")
+		}
+	}
+	// --- height 2, round 0: V2 proposes C
+	sc.h = 2
+	for _, i := range []int{0, 1, 2} {
+		sc.timeout(i)
+	}
+	sc.pump(2)
+	for _, to := range []int{0, 1} {
+		sc.send(to, msgPred{"proposal", 2, 0, "C"})
+		sc.send(to, msgPred{"part", -2, 0, "C"})
+	}
+	sc.send(2, msgPred{"part", -2, 0, "C"})
+	pv(0, 2, 2, 0, "C")
+	pv(0, 3, 2, 0, "C")
+	pv(2, 0, 2, 0, "C")
+	pv(2, 3, 2, 0, "C")
+	pv(1, 2, 2, 0, "C")
+	pv(1, 3, 2, 0, "nil")
+	sc.timeout(1)
+	pc(2, 0, 2, 0, "C")
+	pc(2, 3, 2, 0, "C") // V2 finalizes C
+	pc(0, 1, 2, 0, "nil")
+	pc(0, 3, 2, 0, "nil")
+	pc(1, 0, 2, 0, "C")
+	pc(1, 3, 2, 0, "nil")
+	sc.timeout(0)
+	sc.timeout(1)
+	if withCrash {
+		sc.crash(0)
+	}
+	for k := 0; k < 3 && !sc.nodes[0].dead() && sc.nodes[0].cs.height == 2 && sc.nodes[0].cs.round < 1; k++ {
+		pc(0, 1, 2, 0, "nil")
+		pc(0, 3, 2, 0, "nil")
+		sc.timeout(0)
+	}
+	// --- round 1: the Byzantine proposer is silent; propose timeouts, prevotes, nil precommits
+	sc.timeout(0)
+	sc.timeout(1)
+	pv(0, 1, 2, 1, "")
+	pv(0, 3, 2, 1, "nil")
+	pv(1, 0, 2, 1, "")
+	pv(1, 3, 2, 1, "nil")
+	for _, i := range []int{0, 1} {
+		if !sc.nodes[i].dead() && sc.nodes[i].cs.step == stepPrevoteWait {
+			sc.timeout(i)
+		}
+	}
+	for _, to := range []int{0, 1} {
+		for _, s := range []int{0, 1} {
+			pc(to, s, 2, 1, "")
+		}
+		pc(to, 3, 2, 1, "nil")
+	}
+	for _, i := range []int{0, 1} {
+		if !sc.nodes[i].dead() && sc.nodes[i].cs.height == 2 && sc.nodes[i].cs.round == 1 {
+			sc.timeout(i)
+		}
+	}
+	// --- round 2: V0 proposes (C again if it still holds its lock)
+	sc.pump(0)
+	sc.send(1, msgPred{"proposal", 0, 2, ""})
+	sc.send(1, msgPred{"part", -2, 0, "C"})
+	sc.send(1, msgPred{"part", -2, 0, "D"})
+	// V1 is shown the round-0 polka for C (so that it can accept a re-proposal of C)
+	pv(1, 0, 2, 0, "C")
+	sc.timeout(1)
+	for _, to := range []int{0, 1} {
+		for _, s := range []int{0, 1} {
+			pv(to, s, 2, 2, "")
+		}
+		pv(to, 3, 2, 2, "D")
+	}
+	for _, to := range []int{0, 1} {
+		for _, s := range []int{0, 1} {
+			pc(to, s, 2, 2, "")
+		}
+		pc(to, 3, 2, 2, "D")
+	}
+	return sc, x
 }
 
 // runBaseWorker executes the directed base schedules on real engines: B4 (re-lock, crash,
@@ -975,12 +1317,22 @@ func runBaseWorker(cfg c01Config) *c01Result {
 	base5, _ := scenarioStalePolka(0, 0)
 	base6, _ := scenarioLateImport(0, 0)
 	vs = append(vs, variant{"B6-lateimport-nocrash", false, 0, 0})
+	base7, _ := scenarioHeight2Amnesia(false, 0, 0)
+	vs = append(vs, variant{"B7-h2amnesia-nocrash", false, 0, 0}, variant{"B7-h2amnesia-crashV0-after-lock", true, 0, 0})
+	base8, _ := scenarioStaleHeightRecords(false, 0, 0)
+	vs = append(vs, variant{"B8-stalerecords-nocrash", false, 0, 0}, variant{"B8-stalerecords-crashV0-after-lock", true, 0, 0})
 	for node := 0; node < 3; node++ {
 		for at := 1; at <= base6.stepNo; at++ {
 			vs = append(vs, variant{fmt.Sprintf("B6-lateimport-crashV%d-before-step%d", node, at), false, at, node})
 		}
 		for at := 1; at <= base.stepNo; at++ {
 			vs = append(vs, variant{fmt.Sprintf("B4-relock-crashV%d-before-step%d", node, at), false, at, node})
+		}
+		for at := 1; at <= base7.stepNo; at++ {
+			vs = append(vs, variant{fmt.Sprintf("B7-h2amnesia-crashV%d-before-step%d", node, at), false, at, node})
+		}
+		for at := 1; at <= base8.stepNo; at++ {
+			vs = append(vs, variant{fmt.Sprintf("B8-stalerecords-crashV%d-before-step%d", node, at), false, at, node})
 		}
 		for at := 1; at <= base5.stepNo; at++ {
 			vs = append(vs, variant{fmt.Sprintf("B5-stalepolka-crashV%d-before-step%d", node, at), false, at, node})
@@ -997,6 +1349,10 @@ func runBaseWorker(cfg c01Config) *c01Result {
 			sc, _ = scenarioStalePolka(v.crashAt, v.crashNode)
 		} else if strings.HasPrefix(v.name, "B6") {
 			sc, _ = scenarioLateImport(v.crashAt, v.crashNode)
+		} else if strings.HasPrefix(v.name, "B7") {
+			sc, _ = scenarioHeight2Amnesia(v.withCrash, v.crashAt, v.crashNode)
+		} else if strings.HasPrefix(v.name, "B8") {
+			sc, _ = scenarioStaleHeightRecords(v.withCrash, v.crashAt, v.crashNode)
 		} else {
 			sc, _ = scenarioRelockAmnesia(v.withCrash, v.crashAt, v.crashNode)
 		}
@@ -1009,7 +1365,7 @@ func runBaseWorker(cfg c01Config) *c01Result {
 		key := v.name[:2] + ":"
 		for _, i := range []int{0, 1, 2} {
 			if f, ok := fins[i]; ok {
-				key += fmt.Sprintf("V%d=%s ", i, sc.x.mt.blockName(unhex(f)))
+				key += fmt.Sprintf("V%d=%s ", i, sc.finNames(f))
 			}
 		}
 		out.Finals[key]++
